@@ -107,7 +107,9 @@ class CleanFaults(object):
             self.reads += 1
             try:
                 name = data.name
-                path = os.path.basename(data.group().filepath())
+                path = os.path.normpath(data.group().filepath())
+                if os.path.isabs(path):
+                    path = os.path.relpath(path)
             except Exception:
                 name = path = None
             for f in self.armed:
@@ -193,7 +195,7 @@ class FileFaults(object):
 
     def _open(self, file, mode="r", *args, **kwargs):
         if self.active and isinstance(file, str):
-            base = os.path.basename(file)
+            base = os.path.normpath(file)
             tracked = any(f["file"] == base for f in self.plan) or self.swap_hook is not None
             if tracked:
                 self._note_open(base)
@@ -221,7 +223,7 @@ class FileFaults(object):
 
     def _dataset(self, filename, mode="r", *args, **kwargs):
         if self.active and isinstance(filename, str) and mode == "r":
-            base = os.path.basename(filename)
+            base = os.path.normpath(filename)
             tracked = any(f["file"] == base for f in self.plan) or self.swap_hook is not None
             if tracked:
                 self._note_open(base)
